@@ -28,6 +28,9 @@ let hex_of_bytes l =
 let split_ws s = List.filter (fun x -> x <> "") (String.split_on_char ' ' s)
 
 let () =
+  (* the extracted code allocates heavily through deep non-tail recursion (List.app on 4-70 kB
+     lines): a large minor heap avoids most of the minor-collection root scanning *)
+  Gc.set { (Gc.get ()) with Gc.minor_heap_size = 8 * 1024 * 1024; Gc.space_overhead = 200 };
   let id = Sys.argv.(1) in
   let idb = List.init (String.length id) (fun i -> n_of_int (Char.code id.[i])) in
   let e = try List.assoc idb all_entries with Not_found -> (prerr_endline ("unknown property " ^ id); exit 2) in
